@@ -88,9 +88,26 @@ class LimiterSystem:
             trig = Trigger(LineLocation(self.base, self.line, Location.Position.START), [act])
             self.rig.install_triggers([trig])
             self.triggers = [trig]
+            self.public_args = None
         else:
             self.triggers = self.rig.install([{'id': 'tp1', 'path': self.base, 'line': self.line, 'args': args}])
+            self.public_args = args
         self.action = R.actions_of(self.triggers[0])[0]
+        self.nreinstall = 0
+
+    def reinstall(self):
+        """The service sends a new configuration: ANOTHER tracepoint was added (or removed again), this one is in it
+        unchanged. Returns False where the tracepoint was not installed the way the service does it."""
+        if self.public_args is None:
+            return False
+        self.nreinstall += 1
+        tps = [{'id': 'tp1', 'path': self.base, 'line': self.line, 'args': dict(self.public_args)}]
+        if self.nreinstall % 2:
+            tps.append({'id': 'tp-other', 'path': 'elsewhere.py', 'line': 7, 'args': {}})
+        self.triggers = self.rig.install(tps)
+        mine = [a for t in self.triggers for a in R.actions_of(t) if a.id == 'tp1']
+        self.action = mine[0]
+        return True
 
     def close(self):
         self.rig.close()
@@ -218,6 +235,10 @@ class Recorder:
     def tick(self, now):
         self.sys.rig.clock.set(now)
         self.log(ev='Tick', now=now)
+
+    def reinstall(self):
+        if self.sys.reinstall():
+            self.log(ev='Reinstall')
 
     def trace(self, threads):
         c = dict(self.sys.cfg)
